@@ -9,6 +9,7 @@ import (
 	"encoding/json"
 	"errors"
 	"fmt"
+	"strings"
 
 	stk "github.com/JesseCoretta/go-stackage"
 )
@@ -27,6 +28,10 @@ type ClInput struct {
 }
 
 func marker(f int) string { return fmt.Sprintf("MARK%d", f) }
+
+// presText: what presentation closure f returns - with white space at both ends,
+// a TAB, a line break and runs of blanks inside (a pretty-printer's output)
+func presText(f int) string { return fmt.Sprintf("  MARK%d\t x  y\n  z ", f) }
 
 func runClosures(raw json.RawMessage) (res *Result, err error) {
 	var in ClInput
@@ -114,7 +119,7 @@ func runClosures(raw json.RawMessage) (res *Result, err error) {
 		case 2:
 			var fn stk.PresentationPolicy
 			if f >= 0 {
-				fn = func(...any) string { return marker(f) }
+				fn = func(...any) string { return presText(f) }
 			}
 			if in.Cond {
 				c.SetPresentationPolicy(fn)
@@ -206,7 +211,14 @@ func runClosures(raw json.RawMessage) (res *Result, err error) {
 				switch {
 				case str == "":
 					ob = "OEmpty"
-				case func() bool { _, err := fmt.Sscanf(str, "MARK%d", &m); return err == nil && str == marker(m) }():
+				case func() bool {
+					_, err := fmt.Sscanf(strings.TrimSpace(str), "MARK%d", &m)
+					if err == nil && str != presText(m) && mafProblem == "" {
+						// the closure's text is the result: nothing is trimmed, condensed or re-padded
+						mafProblem = fmt.Sprintf("String() with a presentation closure installed returned %q, the closure returned %q", str, presText(m))
+					}
+					return err == nil && str == presText(m)
+				}():
 					ob = fmt.Sprintf("(OMark %d%%N false)", m)
 				default:
 					ob = "OBuiltin"
